@@ -21,7 +21,7 @@ if __name__ == "__main__":
     cands = json.load(open(os.path.join(HERE, "known_findings.candidates.json")))["candidates"]
     res, to = farm.run_jobs(cands, job, nproc=16, timeout_s=400, init_fn=install.install)
     old = json.load(open(os.path.join(HERE, "known_findings.json"))) if os.path.exists(os.path.join(HERE, "known_findings.json")) else {}
-    out = {"findings": [], "fixed": old.get("fixed", [])}
+    out = {"note": old.get("note", ""), "findings": [], "fixed": old.get("fixed", [])}
     for c, r in zip(cands, res):
         if not r or not r.get("reproduced"):
             print("NOT REPRODUCED", c["property"], c["class"], r)
